@@ -198,6 +198,8 @@ def run(P, R, tier):
     R.check(ok, 'C12.c', perform, None, 'one delayed read per piece in sorted order', 'delayed partitions are not built from the sorted pieces in order',
             construct='[delayed(read_parquet)(piece.path, ...) for piece in pieces]', nontrivial=False)
 
+    from rules import common as _common
+    _common.forward(P, R, 'C11', ['C11.d'], 'C12.c', 'bounds rows are matched with partitions by position: pieces of several datasets must stay grouped per dataset, in the order the bounds are concatenated', floor=1)
     # ---------------------------------------------------------------- C12.d filter (E-ORD) + C12.e + C12.f
     blk = None
     for s in astq.own_nodes(perform, ast.If):
